@@ -126,8 +126,24 @@ pub fn is_harness_file(f: &str) -> bool {
     f.starts_with("sim/") || (f.starts_with("src/") && !is_gimli_file(f))
 }
 
-/// Execute one case. `body` is the engine-specific driver.
+/// Execute one case. With knob `stack_kib` the case runs on a thread of its own with that
+/// much stack (the simulated caller's thread), otherwise on the worker's run thread.
 pub fn execute(case: &Case, mon: Monitors, keep_log: bool) -> Outcome {
+    let kib = case.knob("stack_kib", 0);
+    if kib > 0 && !cfg!(miri) {
+        return std::thread::scope(|s| {
+            std::thread::Builder::new()
+                .stack_size((kib as usize) << 10)
+                .spawn_scoped(s, || execute_here(case, mon, keep_log))
+                .expect("spawn run thread")
+                .join()
+                .unwrap_or_else(|_| crate::harness_error("small-stack run thread panicked"))
+        });
+    }
+    execute_here(case, mon, keep_log)
+}
+
+fn execute_here(case: &Case, mon: Monitors, keep_log: bool) -> Outcome {
     let sim = SimState::new();
     sim.arm(FaultPlan::from_vec(&case.fault));
     let mut ctx = Ctx::new(case, sim.clone(), keep_log, mon);
